@@ -76,6 +76,12 @@ def criteria_node(form, ref, value, alt=None):
     if form == 4:
         return E("BooleanExpression", {}, [E("ORedConditions", {}, [_cond(ref, "==", value),
                                                                     _cond(ref, "eq", value if alt is None else alt)])])
+    if form == 6:
+        # a Condition comparing two parameters (VERSION and TYPE are both 0 in every packet the encoder builds)
+        two = E("Condition", {}, [E("ParameterInstanceRef", {"parameterRef": "VERSION", "useCalibratedValue": "false"}, []),
+                                  E("ComparisonOperator", text="=="),
+                                  E("ParameterInstanceRef", {"parameterRef": "TYPE", "useCalibratedValue": "false"}, [])])
+        return E("BooleanExpression", {}, [E("ANDedConditions", {}, [_cond(ref, "==", value), two])])
     # nested: OR( AND(>=, <=), == alt )
     return E("BooleanExpression", {}, [E("ORedConditions", {}, [
         _cond(ref, "==", value if alt is None else alt),
@@ -182,6 +188,8 @@ def draw_type(ch, doc, idx, int_refs, force_ref=False):
         extra = []
         if ch.chance(1, 4, "fdefcal"):
             extra.append(E("DefaultCalibrator", {}, [_calibrator(ch, "fdc")]))
+        if int_refs and ch.chance(1, 4, "fctxcal"):
+            extra.append(_context_cal_list(ch, "fcc", int_refs, doc))
         node = E("FloatParameterType", {"name": name}, unit_nodes + [E("FloatDataEncoding", a, extra)])
         k.update(bits=bits)
     elif kind == "enum":
@@ -202,9 +210,9 @@ def draw_type(ch, doc, idx, int_refs, force_ref=False):
         k.update(bits=bits)
     elif kind == "bindyn":
         ref = ch.pick(int_refs, "binref")
-        slope, icpt = ch.pick(((8, 0), (8, 8), (24, 8), (16, 0)), "binadj")
+        slope, icpt = ch.pick(((8, 0), (8, 8), (24, 8), (16, 0), (1, 0)), "binadj")
         dv = [E("ParameterInstanceRef", {"parameterRef": ref, "useCalibratedValue": "false"}, [])]
-        if True:
+        if (slope, icpt) != (1, 0):           # (1, 0): no LinearAdjustment element at all, the raw value is the size in bits
             dv.append(E("LinearAdjustment", {"slope": str(slope), "intercept": str(icpt)}, []))
         node = E("BinaryParameterType", {"name": name}, unit_nodes + [
             E("BinaryDataEncoding", {}, [E("SizeInBits", {}, [E("DynamicValue", {}, dv)])])])
@@ -241,10 +249,15 @@ def draw_type(ch, doc, idx, int_refs, force_ref=False):
         ref = ch.pick(int_refs, "strref")
         dv = [E("ParameterInstanceRef", {"parameterRef": ref, "useCalibratedValue": "false"}, []),
               E("LinearAdjustment", {"slope": "8", "intercept": "8"}, [])]
+        smode = ch.pick(("raw", "term", "lead"), "strdyn_mode")
+        var_children = [E("DynamicValue", {}, dv)]
+        if smode == "term":
+            var_children.append(E("TerminationChar", text="00"))
+        elif smode == "lead":
+            var_children.append(E("LeadingSize", {"sizeInBitsOfSizeTag": "8"}, []))
         node = E("StringParameterType", {"name": name}, unit_nodes + [
-            E("StringDataEncoding", {"encoding": "ISO-8859-1"}, [E("Variable", {"maxSizeInBits": "2048"},
-                                                                   [E("DynamicValue", {}, dv)])])])
-        k.update(ref=ref)
+            E("StringDataEncoding", {"encoding": "ISO-8859-1"}, [E("Variable", {"maxSizeInBits": "2048"}, var_children)])])
+        k.update(ref=ref, mode=smode)
         doc.features.add("dynamic_length")
     else:  # abstime / reltime
         tag = "AbsoluteTimeParameterType" if kind == "abstime" else "RelativeTimeParameterType"
@@ -254,7 +267,11 @@ def draw_type(ch, doc, idx, int_refs, force_ref=False):
         if ch.chance(1, 2, "toffset"):
             ea["offset"] = ch.pick(("0", "100.5", "-3"), "toffv")
         bits = ch.pick((32, 16, 8), "tbits")
-        children = [E("Encoding", ea, [_int_encoding(bits, "unsigned")])]
+        if ch.chance(1, 4, "tfloat"):
+            bits = ch.pick((32, 64), "tfbits")
+            children = [E("Encoding", ea, [E("FloatDataEncoding", {"sizeInBits": str(bits)}, [])])]
+        else:
+            children = [E("Encoding", ea, [_int_encoding(bits, "unsigned")])]
         if ch.chance(1, 2, "tref"):
             children.append(E("ReferenceTime", {}, [E("Epoch", text=ch.pick(("TAI", "2009-10-10T12:00:00-05:00", "GPS"),
                                                                               "epoch"))]))
@@ -320,7 +337,7 @@ def draw_doc(ch, tag="D"):
     n_branches = 1 + ch.draw(4, "nbranches")
     apids = [5, 0, 2047, 1024][:n_branches]
     for bi, apid in enumerate(apids):
-        form = ch.draw(6, "cform")
+        form = ch.draw(7, "cform")
         alt = 900 + bi if form in (4, 5) else None
         two_level = ch.chance(1, 3, "two_level")
         cname = f"BR{bi}{deco}"
@@ -411,7 +428,7 @@ def draw_rendering(ch):
             rest = first + "0123456789.-"
             prefix = first[ch.draw(len(first), "pfx0")] + "".join(rest[ch.draw(len(rest), "pfxc")]
                                                                   for _ in range(ch.draw(6, "pfxlen")))
-            if prefix.lower().startswith("xml"):
+            if prefix.lower().startswith("xml") or prefix == "xsi":
                 prefix = "q" + prefix
     comments = ch.weighted([(4, "none"), (3, "some"), (2, "everywhere"), (1, "lists")], "comments")
     ws = ch.pick(("compact", "pretty", "tabs", "crlf"), "ws")
@@ -637,7 +654,13 @@ def encode_packet(doc, chain, apid, fixed, sub, count=0, version=0, flags=3):
             bits.put_bytes(txt)
         elif kind == "strdyn":
             nb = raw.get(k["ref"], 0) + 1
-            bits.put_bytes(bytes(0x61 + (rnd(8) % 26) for _ in range(nb)))
+            txt = bytes(0x61 + (rnd(8) % 26) for _ in range(nb))
+            if k.get("mode") == "term":
+                cut = rnd(8) % nb
+                txt = txt[:cut] + b"\x00" + txt[cut + 1:]
+            elif k.get("mode") == "lead":
+                txt = bytes([(rnd(8) % min(nb, 32)) * 8]) + txt[1:]
+            bits.put_bytes(txt)
     data = bits.to_bytes()
     if not data:
         data = b"\x00"
@@ -689,12 +712,19 @@ def fingerprint(obj, top=True, _depth=0):
         return ("callable",) + tuple(res)
     d = getattr(obj, "__dict__", None)
     if d is None:
-        return (type(obj).__name__, repr(obj))
+        slots = [n for c in type(obj).__mro__ for n in getattr(c, "__slots__", ())]
+        if slots:
+            return (type(obj).__name__,) + tuple((n, fingerprint(getattr(obj, n, None), False, _depth + 1))
+                                                 for n in slots if not n.startswith("_"))
+        r = repr(obj)
+        return (type(obj).__name__, r if " at 0x" not in r else "<object>")      # never an address
     items = []
     for kname in sorted(d):
         if top and kname in _EXCLUDE_TOP:
             continue
-        if kname.startswith("__"):
+        if kname.startswith("_"):
+            # private and name-mangled attributes (lazy indexes, memo tables, cached properties) are not part of what a
+            # definition means; the library's own equality ignores them too
             continue
         items.append((kname, fingerprint(d[kname], False, _depth + 1)))
     return (type(obj).__name__,) + tuple(items)
